@@ -139,6 +139,11 @@ def struct_pair(ctx, rep, tpath):
     if r is None or w is None:
         rep.fail("R1.3c", "%s:found" % short, "reader/writer bodies of %s not found" % tpath)
         return
+    # private helpers of the type's module (bit packing / splitting) are part of the codec
+    from mirq import inline_calls
+    modp = tpath.rsplit("::", 1)[0] + "::"
+    r = inline_calls(r, lambda d: d.startswith(modp) and "{closure" not in d and not d.startswith("<"), depth=3)
+    w = inline_calls(w, lambda d: d.startswith(modp) and "{closure" not in d and not d.startswith("<"), depth=3)
     # reader: wire slots in path order = read/seek calls ordered by dominance
     rslots = []
     for bb, t in r.calls():
